@@ -180,6 +180,8 @@ def run_case(case, name):
                     st["timeout"] = True
                     break
                 time.sleep(0.0002)
+            if g.get("delay") and not progress["release_all"]:
+                time.sleep(g["delay"])      # lets the other thread finish the few bytecodes up to its wait loop
             st["passed"] = True
 
     class Collector(EventListener):
